@@ -12,6 +12,7 @@ from __future__ import annotations
 import logging
 import re
 import struct
+from fractions import Fraction
 import urllib.parse
 
 from lxml import etree
@@ -34,7 +35,7 @@ RULE = ("acceptance runs: seeded (stream, template, mode, option vector, clock, 
         "run index; non-trivial = the validator fetched at least one manifest and 3 segments; distinct = distinct "
         "abstract traces")
 CATALOGUE = ["tfdt", "mfhd", "trun-offset", "saio-offset", "init-box-mvhd", "init-box-trak", "init-box-mvex",
-             "timeline-gap", "mpd-attr", "ast-on-refresh"]
+             "timeline-gap", "mpd-attr", "ast-on-refresh", "tfdt-newest"]
 
 
 def budget(tier: str) -> dict:
@@ -51,7 +52,9 @@ def generate(seed: int, tier: str, index: int) -> dict:
         kind = CATALOGUE[(index // 2) % len(CATALOGUE)]
         corruption = {"kind": kind, "k": (index // (2 * len(CATALOGUE))) % 5}
     live = rng.random() < 0.6 or (corruption and corruption["kind"] == "ast-on-refresh")
-    if corruption and corruption["kind"] == "timeline-gap":
+    if corruption and corruption["kind"] == "tfdt-newest":
+        live = True
+    if corruption and corruption["kind"] in ("timeline-gap", "tfdt-newest"):
         manifest = rng.choice(["hand_made.mpd", "manifest_a.mpd", "manifest_n.mpd"])
     elif live:
         manifest = rng.choice(mc.LIVE_TEMPLATES)
@@ -64,9 +67,12 @@ def generate(seed: int, tier: str, index: int) -> dict:
         q.setdefault("depth", str(rng.choice([16, 20, 30])))
         q.pop("leeway", None)
         q.pop("drift", None)
+        if rng.random() < 0.12:
+            # the server's clock runs ahead of (negative) or behind (positive) the validator's
+            q["drift"] = rng.choice(["-10", "-4", "4", "10"])
     else:
         q = c06.vod_vector(rng, manifest, mode, encrypted_ok=(stream == "bbb"))
-    if corruption and corruption["kind"] == "timeline-gap":
+    if corruption and corruption["kind"] in ("timeline-gap", "tfdt-newest"):
         q["timeline"] = "1"
     if corruption and corruption["kind"] == "saio-offset":
         stream = "bbb"
@@ -204,6 +210,8 @@ class Corruptor:
         self.seen = 0
         self.applied: dict | None = None
         self.manifests_seen = 0
+        self.target_path: str | None = None      # tfdt-newest: the newest video segment the first manifest lists
+        self.target_avail_us: int | None = None  # ... and the instant from which it may be requested
 
     def __call__(self, msg: Message, resp: Response) -> Response:
         if self.applied is not None or msg.actor.id != "val" or resp.status != 200:
@@ -214,7 +222,18 @@ class Corruptor:
         is_media = (not is_manifest) and (not is_init) and path.startswith("/dash/")
         try:
             new = None
-            if self.kind in ("tfdt", "mfhd", "trun-offset", "saio-offset") and is_media:
+            if self.kind == "tfdt-newest":
+                if is_manifest and self.target_path is None:
+                    self.pick_newest(msg.url, resp.body)
+                elif is_media and path == self.target_path:
+                    self.kind = "tfdt"
+                    try:
+                        new = self.corrupt_media(resp.body)
+                    finally:
+                        self.kind = "tfdt-newest"
+                    if self.applied is not None:
+                        self.applied["what"] = "tfdt-newest"
+            elif self.kind in ("tfdt", "mfhd", "trun-offset", "saio-offset") and is_media:
                 if self.seen >= self.k:
                     new = self.corrupt_media(resp.body)
                 self.seen += 1
@@ -239,6 +258,25 @@ class Corruptor:
         self.sim.world.fired("net.corrupt")
         self.sim.world.note("net", f"corrupt {self.kind} {path}")
         return Response(status=resp.status, headers=resp.headers, body=new, exc=resp.exc, fault=f"net.corrupt:{self.kind}")
+
+    def pick_newest(self, url: str, body: bytes) -> None:
+        from ..oracles import mpd as mpdlib
+        m = mpdlib.parse(body, url)
+        if m.ast_us is None:
+            return
+        for period in m.periods:
+            for aset in period.asets:
+                if (aset.content_type or "video") != "video" or not aset.reps:
+                    continue
+                rep = aset.reps[0]
+                tm = rep.template
+                if tm is None or not tm.timeline or not tm.media:
+                    continue
+                e = tm.timeline[-1]
+                self.target_path = urllib.parse.urlsplit(mpdlib.segment_url(rep, tm.media, time=e.t)).path
+                pstart = period.start or 0
+                self.target_avail_us = m.ast_us + int((pstart + Fraction(e.t + e.d - tm.pto, tm.timescale)) * 1_000_000)
+                return
 
     def corrupt_media(self, body: bytes) -> bytes | None:
         seg = isobmff.media_segment(body)
@@ -414,16 +452,24 @@ def judge(sim: Sim, val: ValidatorActor, corruptor: Corruptor | None, tmpl: str,
                 pass
         if depth < 22:
             tags.append("small-depth")
+        if q.get("drift", "0").lstrip("-").isdigit() and int(q.get("drift", "0")) != 0:
+            tags.append("server-clock-ahead" if int(q["drift"]) < 0 else "server-clock-behind")
     tagtxt = "+".join(tags)
+    drift_tag = next((t for t in tags if t.startswith("server-clock")), None)
     if val.crashed:
         from ..world import exc_site
         sim.violate("validator-crashed", f"{exc_site(val.crash_exc)}/{'accept' if phase == 'accept' else 'corrupted:' + phase}",
                     f"{val.crashed}; {url}; corruption={spec.get('corruption')}")
         return
     if not val.finished:
-        sim.violate("validator-did-not-terminate", f"{tmpl}/{mode}", f"{url}")
+        sim.violate("validator-did-not-terminate", f"{tmpl}/{mode}" + (f"/{drift_tag}" if drift_tag else ""), f"{url}")
         return
     errors = val.errors
+    if (corruptor is not None and corruptor.applied is None and corruptor.kind == "tfdt-newest"
+            and corruptor.target_path is not None):
+        # the newest listed segment was never requested in this session: nothing could be injected (the statement
+        # quantifies over responses of the session, so this is a probe, not a verdict)
+        sim.world.probe("c18.newest-listed-segment-never-fetched")
     if corruptor is None or corruptor.applied is None:
         sim.check("c18-accept")
         if corruptor is not None:
@@ -432,6 +478,11 @@ def judge(sim: Sim, val: ValidatorActor, corruptor: Corruptor | None, tmpl: str,
             seen = set()
             for e in errors:
                 where = f"{e.assertion.filename}:{e.assertion.lineno}"
+                # errors about a segment name the Representation first ("bbb_a1:5302314.m4a: ..."): keep it in
+                # the subject so that a recorded weakness on one track does not hide a new one on another
+                mrep = re.match(r"^([A-Za-z0-9_]+):", str(e.msg))
+                if mrep:
+                    where += "/" + mrep.group(1)
                 if where in seen:
                     continue
                 seen.add(where)
@@ -446,6 +497,8 @@ def judge(sim: Sim, val: ValidatorActor, corruptor: Corruptor | None, tmpl: str,
         ckind += "/" + {"m4v": "video", "m4a": "audio", "mp4": "text"}[cext]
     if "small-depth" in tags:
         ckind += "/small-depth"
+    if drift_tag:
+        ckind += "/" + drift_tag
     if not errors:
         sim.violate("corruption-not-detected", f"{ckind}",
                     f"{applied} applied to {applied.get('url')} but the validator reported no error; session {url}")
